@@ -407,8 +407,40 @@ fn mint_case(ctx: &mut Ctx) {
     ctx.emit(&req, &out);
 }
 
+/// hand-made interacting cases (DESIGN §5.F): the base asset present only through message inputs
+fn corpus(ctx: &mut Ctx) {
+    use fuel_tx::policies::Policies;
+    let w = txgen::World { base: AssetId::new([0xb5; 32]), privileged: Address::new([9; 32]), height: 7 };
+    let x = AssetId::new([0x11; 32]);
+    let wit = vec![Witness::from(vec![0u8; 64])];
+    let coin = |a: AssetId, amt: u64, n: u8| Input::coin_signed(UtxoId::new(Bytes32::new([n; 32]), 0), Address::new([n; 32]), amt, a, TxPointer::default(), 0);
+    let mdata = |amt: u64, n: u8| Input::message_data_signed(Address::default(), Address::new([n; 32]), amt, Nonce::new([n; 32]), 0, vec![1, 2, 3]);
+    let mcoin = |amt: u64, n: u8| Input::message_coin_signed(Address::default(), Address::new([n; 32]), amt, Nonce::new([n; 32]), 0);
+    let to = Address::new([3; 32]);
+    let mk = |fee: u64, inputs: Vec<Input>, outputs: Vec<Output>| -> Case {
+        let tx: Transaction = Transaction::script(1000, vec![1, 2, 3, 4], vec![], Policies::new().with_max_fee(fee), inputs, outputs, wit.clone()).into();
+        Case { tx, limits: Limits::lenient(&w, c18::default_costs(), 4), height: w.height }
+    };
+    // spendable input of another asset; the base asset appears only in a message-DATA input
+    run_case(ctx, &mk(0, vec![coin(x, 100, 1), mdata(50, 2)], vec![Output::change(to, 0, w.base), Output::coin(to, 0, w.base), Output::coin(to, 100, x)]), "corpus-base-via-message-data", Some(None));
+    run_case(ctx, &mk(0, vec![coin(x, 100, 1), mdata(50, 2)], vec![Output::coin(to, 1, w.base)]), "corpus-base-coin-from-retryable", Some(Some("InsufficientInputAmount")));
+    run_case(ctx, &mk(1, vec![coin(x, 100, 1), mdata(50, 2)], vec![]), "corpus-fee-from-retryable", Some(Some("InsufficientFeeAmount")));
+    // duplicate change outputs for the base asset when it comes from message inputs only
+    run_case(ctx, &mk(5, vec![mcoin(10, 1)], vec![Output::change(to, 0, w.base), Output::change(to, 0, w.base)]), "corpus-change-duplicated-message", Some(Some("TransactionOutputChangeAssetIdDuplicated")));
+    run_case(ctx, &mk(0, vec![coin(x, 1, 1), mdata(10, 2)], vec![Output::change(to, 0, w.base), Output::change(to, 0, w.base)]), "corpus-change-duplicated-message-data", Some(Some("TransactionOutputChangeAssetIdDuplicated")));
+    // exact spending: fee + coins = inputs, message coin and coin of the base asset together
+    run_case(ctx, &mk(60, vec![coin(w.base, 100, 1), mcoin(10, 2)], vec![Output::coin(to, 50, w.base), Output::change(to, 0, w.base)]), "corpus-exact-spend", Some(None));
+    run_case(ctx, &mk(61, vec![coin(w.base, 100, 1), mcoin(10, 2)], vec![Output::coin(to, 50, w.base)]), "corpus-exact-spend-plus-one", Some(Some("InsufficientInputAmount")));
+    // the sum of one asset is exactly u64::MAX / one above
+    run_case(ctx, &mk(0, vec![coin(w.base, u64::MAX - 5, 1), mcoin(5, 2)], vec![Output::coin(to, u64::MAX, w.base)]), "corpus-sum-u64-max", Some(None));
+    run_case(ctx, &mk(0, vec![coin(w.base, u64::MAX - 5, 1), mcoin(6, 2)], vec![]), "corpus-sum-u64-max-plus-one", Some(Some("BalanceOverflow")));
+    // zero inputs
+    run_case(ctx, &mk(0, vec![], vec![]), "corpus-no-inputs", Some(Some("NoSpendableInput")));
+}
+
 pub fn run(ctx: &mut Ctx) {
     if std::env::var("FV_PANIC_TRACE").is_ok() { std::panic::set_hook(Box::new(|i| eprintln!("panic: {i}"))); }
+    corpus(ctx);
     let rounds = ctx.n(40, 1500);
     for round in 0..rounds {
         for kind in 0..6usize {
